@@ -7,9 +7,10 @@ reg(Check(
         "key maps of path elements have pairwise distinct key names (they are Go maps)",
         "a plain query element is valid UTF-8 (the ygot parser ranges over runes and replaces invalid bytes by U+FFFD; modelled, and compared with the implementation on invalid input too)",
         "integers handed to FromScalar fit their Go type; typed-nil oneof wrappers (which the protobuf runtime never produces) are excluded",
+        "the query round trip requires that the last element does not end in '/' (known finding KF-C19-3)",
     ],
     modelled=["path/path.go: ToStrings, sortedVals, CompletePath; cache/cache.go: joinPrefixAndPath; client/gnmi/client.go: pathToString, subscribe (path construction only); ygot v0.29.20 StringToPath = util.SplitPath, PathStringToElements, extractKV, addKey, elemToString (byte level); value/value.go: FromScalar, ToScalar (decimalToFloat symbolic, encoding/json validity as an oracle), Equal"],
     extra_trusted=["unicode/utf8.ValidString and the rune decoding of a Go range loop are ported to Gallina (Value/Utf8.v: utf8_valid, sanitize) and validated by the correspondence run only"],
 ),
     level_text="Theorems in coq/Props/C19.v state, over the Gallina models of path/path.go, the client query construction (client/gnmi + the ygot path parser) and value/value.go, for all inputs: index independence of key-map order, key values in key-name order, target/origin only when requested and non-empty, the CompletePath accept/reject rule, the client-query round trip for plain elements, the scalar round trip, and totality / symmetry / soundness of Equal. The models are tied to the Go code by a correspondence run evaluated inside Coq (each path indexed 20 times on fresh maps, all origin/prefix combinations, all ordered pairs of a TypedValue basis covering every oneof arm, nil, NaN, +-0), which also applies an independently written executable specification to the implementation's own answers.",
-    level_note="Trusted: Coq kernel + vm_compute, the hand-written models (validated only on the explored cases), the Go harness projection. Known findings: value.Equal / value.ToScalar nil dereferences (candidate patches in fixes/), last query element ending in '/' dropped by ygot.")
+    level_note="Trusted: Coq kernel + vm_compute, the hand-written models (validated only on the explored cases), the Go harness projection. decimalToFloat is symbolic, encoding/json validity an oracle. Fixed through this check: value.Equal / value.ToScalar nil dereferences (b28d6aa, e8be1b1). Known finding: the last query element is dropped by the ygot path parser when it ends in '/'.")
